@@ -44,6 +44,10 @@ def run(chk: Check):
         got = wfcheck.lib_eval(I, "e")
         wfcheck.compare(chk, I, ex, got, "e", tol_for(I["kind"]), "energy")
         chk.traces += 1
+        J = wfcheck.previous_like(insts, I)
+        if J is not None:       # the same evaluation on dictionaries that were prepared for another problem before
+            wfcheck.compare(chk, I, ex, wfcheck.lib_eval(I, "e", reprepare_from=J), "e", tol_for(I["kind"]), "energy-reprepared")
+            chk.traces += 1
         chk.sample({"kind": I["kind"], "norb": I["norb"], "nelec": [I["nu"], I["nd"]], "spin_dependent_h1": I["spin_dep"],
                     "restricted_walkers": I["restricted"], "h1u": I["json"]["h1u"], "chol": I["json"]["chol"],
                     "walker0": I["json"]["walkers"][0],
